@@ -241,7 +241,7 @@ def run_property(mod, tier, seed, replay=None):
 def core_trusted():
     return [
         "Lean 4.33.0 kernel; axioms propext, Classical.choice, Quot.sound only (audited with #print axioms on every property theorem)",
-        "statements in lean/DilithiumVerif/Props and definitions in lean/DilithiumVerif/Spec (validated against external vectors, not proved against the PDFs)",
+        "statements in lean/DilithiumVerif/Props and the specification-level definitions they use (lean/DilithiumVerif/Spec, Lemmas/XofSpec, BitSpec, EncodeSpec, SampleInBall, KeygenSpec, VerifyFips, SignSpec): their building blocks are compared with hashlib / an independent Python transcription on every run (spec oracle), the relations are read against FIPS 204 (DESIGN App. D), not proved against the PDFs",
         "correspondence check: tools/dvcheck, harness/ (Rust), lean/Main.lean driver and the Lean compiler that builds it; differential, exhaustive only where stated",
         "Rust integer semantics as encoded in Impl/Basic.lean (checked build = fault on overflow; wrapping casts and shifts)",
     ]
